@@ -1,5 +1,125 @@
-import ChibiVerif.Model.PrintTokens
+/-
+C19 — preprocessed output is a faithful program.
+
+Property theorems only (helper lemmas: Lemmas/LexLemmas.lean — one scanning step —, Lemmas/LexSeq.lean — the loop).
+
+Objects:
+  `lex`          Model/Lex.lean          tokenize.c `tokenize()` (scanning loop; code points; no NUL; well-formed UTF-8)
+  `printTokens`  Model/PrintTokens.lean  main.c `print_tokens`
+  `needSpace`    Gen/LexGen.lean         main.c `need_space`, regenerated from the source on every run (with `ops[]`,
+                                         `is_word_char`, the punctuator table `kw[]`, the pp-number sets, the is_ident ranges)
+  `selfLexing a` the spelling `a`, scanned alone, is exactly one token spelled `a` (decidable, Model/Lex.lean).
+                 Every token of a -E output was produced by some call of `tokenize` (source text, `##` paste, `#` stringize,
+                 builtin macros).
+
+Domain restriction (stated in checklib/C19.py ASSUMPTIONS): `tokenize_file` runs three text passes BEFORE `tokenize`
+(CR/LF, backslash-newline, \u escapes).  They are the identity on printed text unless a token is the lone `\` punctuator
+followed by a newline or by `uXXXX`; such a token never survives into a valid program.  The theorems are about `tokenize`.
+-/
+import ChibiVerif.Lemmas.LexSeq
+
 namespace ChibiVerif.Props.C19
-open ChibiVerif.Lex
-theorem C19_placeholder : selfLexing [49, 46] = true := by decide
+open ChibiVerif.Lex ChibiVerif.Gen.Lex
+
+/-- **C19 (need_space is sound).**  For all self-lexing spellings `a`, `b`: if `need_space` says that no separator is
+    needed between them, the glued text `a ++ b` lexes to exactly the two tokens `a`, `b` — maximal munch cannot cross
+    the boundary (identifier/pp-number continuation, `.`+digit, `e+`/`p-`, string and character prefixes `L u U u8`,
+    every entry of the punctuator table, `//` and `/*`). -/
+theorem C19_need_space_sound (a b : List Nat) (ha : selfLexing a = true) (hb : selfLexing b = true)
+    (h : needSpace a b = false) :
+    spellings (lex (a ++ b)) = .ok [a, b] := by
+  have hok : okItems [([], a), ([], b)] := ⟨rfl, ha, fun _ => h, rfl, hb, trivial, trivial⟩
+  have := lex_items [([], a), ([], b)] [] hok rfl
+  simp only [render, List.nil_append, List.append_nil] at this
+  rw [this]
+  simp [spellings, tokensOf]
+
+/-- non-vacuity: `-` `>` must be separated, `1.` `_` need not (for chibicc's pp-number rule), and the glued text is two tokens -/
+example : selfLexing [49, 46] = true ∧ selfLexing [95] = true ∧ needSpace [49, 46] [95] = false ∧
+    needSpace [45] [62] = true ∧ needSpace [49, 46] [120] = true ∧ needSpace [49, 101, 43] [53] = true := by decide
+
+/-- **C19 (separators are harmless).**  A text made of self-lexing spellings, each preceded by a NON-EMPTY run of blanks
+    and newlines (the first one may have none), followed by any run of blanks/newlines, lexes to exactly those spellings:
+    inserting a space or a newline between two tokens never changes the token sequence. -/
+theorem C19_space_harmless (items : List Item) (w : List Nat)
+    (h : ∀ it ∈ items, isBlank it.1 = true ∧ selfLexing it.2 = true)
+    (hne : ∀ it ∈ items.tail, it.1 ≠ []) (hw : isBlank w = true) :
+    spellings (lex (render items ++ w)) = .ok (items.map (·.2)) := by
+  have hok : okItems items := by
+    induction items with
+    | nil => trivial
+    | cons it r ih =>
+      refine ⟨(h it (List.mem_cons_self ..)).1, (h it (List.mem_cons_self ..)).2, ?_,
+        ih (fun x hx => h x (List.mem_cons_of_mem _ hx))
+          (fun x hx => hne x (by
+            cases r with
+            | nil => cases hx
+            | cons y r' => exact List.mem_cons_of_mem _ hx))⟩
+      cases r with
+      | nil => trivial
+      | cons it2 r' => exact fun h0 => absurd h0 (hne it2 (List.mem_cons_self ..))
+  rw [lex_items items w hok hw]
+  simp [spellings, tokensOf_text]
+
+/-- non-vacuity: `-` newline `-1`… : the spellings `-`, `-`, `1` separated by one blank, one newline -/
+example : spellings (lex (render [([], [45]), ([32], [45]), ([10], [49])] ++ [10])) = .ok [[45], [45], [49]] :=
+  C19_space_harmless _ _ (by decide) (by decide) (by decide)
+
+/-- **C19 (round trip).**  For every token list whose spellings are self-lexing — with ARBITRARY `at_bol` / `has_space`
+    flags on every token — the text `print_tokens` writes lexes back to exactly the same spellings, in order. -/
+theorem C19_roundtrip (ts : List Tok) (h : ∀ t ∈ ts, selfLexing t.text = true) :
+    spellings (lex (printTokens ts)) = .ok (ts.map (·.text)) := by
+  rw [lex_printTokens ts h]
+  simp [spellings, relexed_text]
+
+/-- non-vacuity: `#define N -1` / `-N` (tokens `-` `-` `1`, nothing has `has_space`), `f(1.)f(x)`, `f(L)"s"`:
+    the printed text is `- -1`, `1. x`, `L "s"` and lexes back to the tokens -/
+example :
+    printTokens [⟨.punct, [45], true, false⟩, ⟨.punct, [45], false, false⟩, ⟨.ppnum, [49], false, false⟩]
+      = [45, 32, 45, 49, 10] ∧
+    printTokens [⟨.ppnum, [49, 46], true, false⟩, ⟨.ident, [120], false, false⟩] = [49, 46, 32, 120, 10] ∧
+    printTokens [⟨.ident, [76], true, false⟩, ⟨.str, [34, 115, 34], false, false⟩] = [76, 32, 34, 115, 34, 10] ∧
+    spellings (lex [45, 32, 45, 49, 10]) = .ok [[45], [45], [49]] := by decide
+
+/-- Full statement of the second half of the property for a preprocessor `pp` (a function on token lists):
+    preprocessing the -E output again and printing it reproduces the text. -/
+def C19_idempotent_Statement (pp : List Tok → List Tok) : Prop :=
+  ∀ ts : List Tok, (∀ t ∈ ts, selfLexing t.text = true) → (∀ t ∈ ts.head?, t.atBol = true) →
+    ∃ ts', lex (printTokens ts) = .ok ts' ∧ printTokens (pp ts') = printTokens ts
+
+/-- no `#` at the beginning of a line and no spelling that `isMacro` holds for: nothing for the preprocessor to do -/
+def Inert (isMacro : List Nat → Bool) (ts : List Tok) : Bool :=
+  ts.all (fun t => !(t.atBol && t.text == [35]) && !isMacro t.text)
+
+/-- **C19 (second pass, partial).**  Let `pp` be any function on token lists that leaves inert lists alone (no `#` at
+    the beginning of a line, no identifier that is a macro at that point).  Then for every inert token list with
+    self-lexing spellings whose first token is at the beginning of a line (as the first token of a file always is),
+    printing, re-reading, preprocessing and printing again gives the same text, byte for byte.
+
+    What is missing for `C19_idempotent_Statement`: (1) that chibicc's `preprocess2` IS such a `pp` — the preprocessor is
+    not modelled here (Model/PP is C09/C10's); (2) that the token list -E prints is inert: an expansion result that starts
+    a line with `#` (`#define H #` / `H define X 1`) or an identifier that is still a macro name when re-read (blue paint
+    is lost in the text: `#undef linux` … `linux`) is outside; both are tested on the binary (checklib/C19.py). -/
+theorem C19_idempotent_partial (pp : List Tok → List Tok) (isMacro : List Nat → Bool)
+    (hpp : ∀ us, Inert isMacro us = true → pp us = us)
+    (ts : List Tok) (h : ∀ t ∈ ts, selfLexing t.text = true) (hfirst : ∀ t ∈ ts.head?, t.atBol = true)
+    (hin : Inert isMacro ts = true) :
+    ∃ ts', lex (printTokens ts) = .ok ts' ∧ printTokens (pp ts') = printTokens ts := by
+  refine ⟨relexed ts, lex_printTokens ts h, ?_⟩
+  have hr := printFrom_relex ts none none rfl (fun _ => hfirst)
+  have hinert : Inert isMacro (relexed ts) = true := by
+    have ht := relexed_text ts
+    have hb : (relexed ts).map (·.atBol) = ts.map (·.atBol) := hr.2
+    unfold Inert at hin ⊢
+    rw [all_congr_of_maps (fun x b => !(b && x == [35]) && !isMacro x) (fun _ => rfl) _ _ ht hb]
+    exact hin
+  rw [hpp _ hinert]
+  exact hr.1
+
+/-- non-vacuity of the hypotheses (identity as `pp`, no macros): `a` newline `- -1` -/
+example : ∃ ts', lex (printTokens [⟨.ident, [97], true, false⟩, ⟨.punct, [45], true, true⟩,
+      ⟨.punct, [45], false, false⟩, ⟨.ppnum, [49], false, false⟩]) = .ok ts' ∧
+    printTokens (id ts') = [97, 10, 45, 32, 45, 49, 10] :=
+  C19_idempotent_partial id (fun _ => false) (fun _ _ => rfl) _ (by decide) (by decide) (by decide)
+
 end ChibiVerif.Props.C19
